@@ -37,6 +37,7 @@ func runC04(r *Run) {
 	if r.Want("e2e") {
 		c04EndToEnd(r)
 	}
+	topoSweep(r, "metadata")
 }
 
 // c04UnaryTransportStream drives the real unaryServerTransportStream (what grpc.SetHeader /
@@ -482,6 +483,11 @@ func c04One(r *Run, rig *Rig, crec *Recorder, kind string, reqMD metadata.MD, pl
 	}
 	if mdCanon(seenReq) != mdCanon(wantReq) {
 		r.Violate("e2e.request_md", "ops", "handler's incoming metadata differs from the caller's", input, mdCanon(seenReq), mdCanon(wantReq))
+	}
+	if kind == "unary" && !haveClientHdr && len(wantHdr) > 0 {
+		// a unary caller sees response headers through its stats handler only: they are on the reply
+		// envelope whatever the final status is
+		r.Violate("e2e.header", "ops", "the handler's response headers were never shown to the unary caller (no InHeader event)", input, "no InHeader", mdCanon(wantHdr))
 	}
 	if haveClientHdr && mdCanon(gotHdr) != mdCanon(wantHdr) {
 		r.Violate("e2e.header", "ops", "headers seen by the caller differ from what the handler set", input, mdCanon(gotHdr), mdCanon(wantHdr))
